@@ -48,6 +48,15 @@ func Scenarios(thorough bool) []sched.Scenario {
 			add(Cfg{Kind: kind, Parallel: 2, MaxQueue: 0, Retry: 3, Reqs: 2, Chunks: 1, Rows: 1, Flusher: true})
 		}
 	}
+	// the real Loki JSON decoder and parser goroutine in front of the handler core: a push that the parser splits into
+	// two portions at its 1 MiB limit (row identity = timestamp + line)
+	for _, retry := range []int{1, 2} {
+		add(Cfg{Kind: "lokireal", Parallel: 1, MaxQueue: 0, Retry: retry, Reqs: 1, Chunks: 2, Rows: 2})
+	}
+	if thorough {
+		add(Cfg{Kind: "lokireal", Parallel: 1, MaxQueue: 0, Retry: 2, Reqs: 1, Chunks: 3, Rows: 1})
+		add(Cfg{Kind: "lokireal", Parallel: 2, MaxQueue: 50, Retry: 2, Reqs: 2, Chunks: 2, Rows: 1})
+	}
 	// profiles: one table, one profile per request
 	for _, retry := range []int{1, 2} {
 		add(Cfg{Kind: "profile", Parallel: 1, MaxQueue: 0, Retry: retry, Reqs: 1, Chunks: 1, Rows: 1})
